@@ -121,7 +121,7 @@ class SsaCases(BoundedContract):
         return list(range(1500 if self.tier == "quick" else 12000))
 
     def prog(self, case):
-        return irsem.gen_program(random.Random(3700 + case))
+        return irsem.gen_program(random.Random(3700 + case), stack=(case % 2 == 1))
 
     def show(self, case):
         return "program #%d: %s" % (case, irsem.show_prog(self.prog(case)))
